@@ -6,7 +6,7 @@
    it was found, c04_repo_fixes = what the current source contains
    (Gen/C04_variant.v, regenerated from /repo by harness/translators/c04_variant.py on every run). *)
 From Coq Require Import Reals List.
-From Verif Require Import Base C04 C04_proofs C04_variant.
+From Verif Require Import Base C04 C04_proofs C04_range_proofs C04_variant.
 Import ListNotations.
 Local Open Scope R_scope.
 
@@ -49,6 +49,31 @@ Theorem C04_wrap_same_point : forall lon lat,
   c04_ll2xyz (c04_deg2rad (c04_wrap180 lon), lat) = c04_ll2xyz (c04_deg2rad lon, lat).
 Proof. exact c04_wrap_same_point. Qed.
 Print Assumptions C04_wrap_same_point.
+
+(* ... idempotently *)
+Theorem C04_wrap_idempotent : forall d, c04_wrap180 (c04_wrap180 d) = c04_wrap180 d.
+Proof. exact c04_wrap_idem. Qed.
+Print Assumptions C04_wrap_idempotent.
+
+(* _set_desired_longitude_range (wrap the whole array iff its maximum exceeds 180) on any array whose
+   longitudes are >= -180: every entry lands in [-180,180], applying it again changes nothing, and
+   every entry denotes the same point as before *)
+Theorem C04_range_fix : forall f n,
+  (forall j, (j < n)%nat -> -180 <= f j) ->
+  forall i lat, (i < n)%nat ->
+    -180 <= c04_range_fix f n i <= 180 /\
+    c04_range_fix (c04_range_fix f n) n i = c04_range_fix f n i /\
+    c04_ll2xyz (c04_deg2rad (c04_range_fix f n i), lat) = c04_ll2xyz (c04_deg2rad (f i), lat).
+Proof. exact c04_range_fix_spec. Qed.
+Print Assumptions C04_range_fix.
+
+(* the LCondWrap operator of the dataflow model (evaluated against the implementation in every
+   correspondence run) is exactly this function *)
+Theorem C04_condwrap_is_range_fix : forall en k l i,
+  c04_sem_ll en (LCondWrap k l) i =
+    (c04_range_fix (fun j => fst (c04_sem_ll en l j)) (en_count en k) i, snd (c04_sem_ll en l i)).
+Proof. exact c04_sem_condwrap. Qed.
+Print Assumptions C04_condwrap_is_range_fix.
 
 (* normalising changes lengths only: a positive multiple, of unit length *)
 Theorem C04_normalize_dir : forall p, 0 < c04_dot p p ->
